@@ -18,6 +18,7 @@ type modLoc struct {
 	lo, hi Term // [lo,hi) cell offsets; ignored when whole
 	whole  bool
 	single bool // hi == lo+1
+	ty     types.Type // type of a single cell (for the type invariant of its new value)
 }
 
 func (f *frame) calleeSpec(cm *ssa.CallCommon) (*spec.FuncSpec, *ssa.Function) {
@@ -233,7 +234,7 @@ func (vc *VC) evalMods(sp *spec.FuncSpec, env *Env) ([]modLoc, error) {
 					out = append(out, modLoc{key: k, obj: l.Obj, lo: off, hi: Add(off, IntLit(n))})
 				}
 			default:
-				out = append(out, modLoc{key: tt.kind(t), obj: l.Obj, lo: off, hi: Add(off, IntLit(1)), single: true})
+				out = append(out, modLoc{key: tt.kind(t), obj: l.Obj, lo: off, hi: Add(off, IntLit(1)), single: true, ty: t})
 			}
 		}
 		walk(l.Ty, l.Off)
@@ -318,6 +319,9 @@ func (vc *VC) scratch(fn func()) {
 	saveN := vc.nfresh
 	saveNotes := vc.Notes
 	saveStr := vc.strLits
+	saveSums, saveCache := vc.sums, vc.sumCache
+	vc.sumCache = map[string]*sumInst{}
+	vc.sums = map[string][]*sumInst{}
 	vc.cmds = nil
 	vc.heapDecl = map[string]bool{}
 	for k, v := range saveDecl {
@@ -333,6 +337,7 @@ func (vc *VC) scratch(fn func()) {
 	vc.nfresh = saveN
 	vc.Notes = saveNotes
 	vc.strLits = saveStr
+	vc.sums, vc.sumCache = saveSums, saveCache
 }
 
 // modKeysOf: heap keys a contracted callee may write (nil: unknown => all).
@@ -376,8 +381,9 @@ func (vc *VC) modKeysOf(sp *spec.FuncSpec, callee *ssa.Function, cm *ssa.CallCom
 }
 
 // havocMods applies a modifies clause to the caller's state.
-func (vc *VC) havocMods(st *State, mods []modLoc) {
+func (vc *VC) havocMods(st *State, mods []modLoc) (wfs []func()) {
 	for _, m := range mods {
+		m := m
 		h := vc.heap(st, m.key)
 		inner := arrayElemSort(h.Sort)
 		switch {
@@ -387,6 +393,9 @@ func (vc *VC) havocMods(st *State, mods []modLoc) {
 		case m.single:
 			fr := vc.declare("hv", arrayElemSort(inner))
 			vc.setHeap(st, m.key, Store(h, m.obj, Store(Select(h, m.obj), m.lo, fr)))
+			if m.ty != nil {
+				wfs = append(wfs, func() { vc.assume(True, vc.tt.wf(m.ty, fr, st.Alloc)) })
+			}
 		default:
 			fr := vc.declare("hv", inner)
 			vc.nfresh++
@@ -398,6 +407,15 @@ func (vc *VC) havocMods(st *State, mods []modLoc) {
 			vc.setHeap(st, m.key, Store(h, m.obj, fr))
 		}
 	}
+	return wfs
+}
+
+// contractPart is one piece of a callee's effective contract: its own clauses
+// or those of a fnspec it refines (parameters and results matched by position).
+type contractPart struct {
+	sp      *spec.FuncSpec
+	names   map[string]SV
+	resName []string // nil: use signature names
 }
 
 func (f *frame) applySpec(sp *spec.FuncSpec, callee *ssa.Function, sig *types.Signature, invoke bool,
@@ -412,48 +430,81 @@ func (f *frame) applySpec(sp *spec.FuncSpec, callee *ssa.Function, sig *types.Si
 	}
 	names := map[string]SV{}
 	pn := paramNames(callee, sig, sp, invoke)
+	var tys []types.Type
 	for i, n := range pn {
 		if i < len(args) {
 			ty := argTypes[i]
 			if callee != nil && i < len(callee.Params) {
 				ty = callee.Params[i].Type()
 			}
+			tys = append(tys, ty)
 			names[n] = SV{T: args[i], Ty: ty}
 		}
 	}
+	parts := []contractPart{{sp: sp, names: names}}
+	for _, rn := range sp.Refines {
+		fs := vc.P.FnSpecs[rn]
+		if fs == nil {
+			return nil, fmt.Errorf("%s:%d: unknown fnspec %s", sp.File, sp.Line, rn)
+		}
+		rnames := map[string]SV{}
+		for i, p := range fs.Params {
+			if i < len(args) && i < len(tys) {
+				rnames[p] = SV{T: args[i], Ty: tys[i]}
+			}
+		}
+		parts = append(parts, contractPart{sp: fs, names: rnames, resName: fs.Results})
+	}
 	pkg := vc.pkgOf(callee, sp)
 	old := st.clone()
-	pre := &Env{vc: vc, names: names, st: old, old: old, pkg: pkg}
 	where := ""
 	if in, ok := v.(ssa.Instruction); ok {
 		where = f.pos(in)
 	}
-	for _, c := range sp.Requires {
-		t, err := pre.evalBool(c.E)
-		if err != nil {
-			return nil, fmt.Errorf("%s:%d: %v", c.File, c.Line, err)
+	hasMod := false
+	for _, part := range parts {
+		pre := &Env{vc: vc, names: part.names, st: old, old: old, pkg: pkg}
+		for _, c := range part.sp.Requires {
+			t, err := pre.evalBool(c.E)
+			if err != nil {
+				return nil, fmt.Errorf("%s:%d: %v", c.File, c.Line, err)
+			}
+			props := c.Props
+			if len(props) == 0 {
+				props = part.sp.Props
+			}
+			// precondition obligations belong to the caller's properties too
+			props = unionProps(props, vc.curProps)
+			vc.oblige("requires@"+shortName(sp), props, g, t, c.Src, where)
 		}
-		props := c.Props
-		if len(props) == 0 {
-			props = sp.Props
+		if part.sp.HasMod {
+			hasMod = true
 		}
-		// precondition obligations belong to the caller's properties too
-		props = unionProps(props, vc.curProps)
-		vc.oblige("requires@"+shortName(sp), props, g, t, c.Src, where)
 	}
 	// frame
-	if !sp.HasMod {
+	if !hasMod {
 		vc.havocAll(st, g)
 	} else {
-		mods, err := vc.evalMods(sp, pre)
-		if err != nil {
-			return nil, fmt.Errorf("%s:%d: %v", sp.File, sp.Line, err)
+		var mods []modLoc
+		for _, part := range parts {
+			if !part.sp.HasMod {
+				continue
+			}
+			pre := &Env{vc: vc, names: part.names, st: old, old: old, pkg: pkg}
+			m, err := vc.evalMods(part.sp, pre)
+			if err != nil {
+				return nil, fmt.Errorf("%s:%d: %v", part.sp.File, part.sp.Line, err)
+			}
+			mods = append(mods, m...)
 		}
-		vc.havocMods(st, mods)
+		wfs := vc.havocMods(st, mods)
 		if !sp.Pure {
 			oa := st.Alloc
 			st.Alloc = vc.declare("alloc", SInt)
 			vc.assume(True, Ge(st.Alloc, oa))
+		}
+		for _, w := range wfs {
+			w() // type invariants of the havocked cells w.r.t. the new frontier
 		}
 	}
 	var results []Term
@@ -463,18 +514,28 @@ func (f *frame) applySpec(sp *spec.FuncSpec, callee *ssa.Function, sig *types.Si
 		vc.assume(True, vc.tt.wf(rt, t, st.Alloc))
 		results = append(results, t)
 	}
-	post := map[string]SV{}
-	for k, x := range names {
-		post[k] = x
-	}
-	bindResults(post, sig, sp, results)
-	env := &Env{vc: vc, names: post, st: st, old: old, pkg: pkg}
-	for _, c := range sp.Ensures {
-		t, err := env.evalBool(c.E)
-		if err != nil {
-			return nil, fmt.Errorf("%s:%d: %v", c.File, c.Line, err)
+	for _, part := range parts {
+		post := map[string]SV{}
+		for k, x := range part.names {
+			post[k] = x
 		}
-		vc.assume(g, t)
+		if part.resName == nil {
+			bindResults(post, sig, sp, results)
+		} else {
+			for i, rn := range part.resName {
+				if i < len(results) {
+					post[rn] = SV{T: results[i], Ty: sig.Results().At(i).Type()}
+				}
+			}
+		}
+		env := &Env{vc: vc, names: post, st: st, old: old, pkg: pkg}
+		for _, c := range part.sp.Ensures {
+			t, err := env.evalBool(c.E)
+			if err != nil {
+				return nil, fmt.Errorf("%s:%d: %v", c.File, c.Line, err)
+			}
+			vc.assume(g, t)
+		}
 	}
 	return results, nil
 }
@@ -638,10 +699,10 @@ func (f *frame) execBuiltin(v ssa.Value, bi *ssa.Builtin, cm *ssa.CallCommon, g 
 			src := f.val(cm.Args[1])
 			n = vc.define(f.pfx+"copyn", Term{app("imin", SLen(dst), Term{app("slen_", src), SInt}), SInt})
 			// contents from a string: abstract
-			h := vc.heap(st, "I")
+			h := vc.heap(st, vc.byteKind())
 			fr := vc.declare("hv", ArraySort(SInt, SInt))
 			vc.frameAxiom(fr, Select(h, SObj(dst)), SOff(dst), Add(SOff(dst), n))
-			vc.setHeap(st, "I", Store(h, SObj(dst), fr))
+			vc.setHeap(st, vc.byteKind(), Store(h, SObj(dst), fr))
 		} else {
 			src := f.val(cm.Args[1])
 			n = vc.define(f.pfx+"copyn", Term{app("imin", SLen(dst), SLen(src)), SInt})
@@ -747,11 +808,11 @@ func (f *frame) execAppend(v ssa.Value, cm *ssa.CallCommon, g Term, st *State) e
 	// in-place branch
 	inpl := st.clone()
 	if fromStr {
-		h := vc.heap(inpl, "I")
+		h := vc.heap(inpl, vc.byteKind())
 		fr := vc.declare("hv", ArraySort(SInt, SInt))
 		lo := Add(SOff(s), SLen(s))
 		vc.frameAxiom(fr, Select(h, SObj(s)), lo, Add(lo, n))
-		vc.setHeap(inpl, "I", Store(h, SObj(s), fr))
+		vc.setHeap(inpl, vc.byteKind(), Store(h, SObj(s), fr))
 	} else {
 		vc.bulkCopy(inpl, et, SObj(s), Add(SOff(s), Mul(SLen(s), IntLit(c))), tobj, toff, Mul(n, IntLit(c)))
 	}
@@ -760,14 +821,15 @@ func (f *frame) execAppend(v ssa.Value, cm *ssa.CallCommon, g Term, st *State) e
 	re := st.clone()
 	nobj := vc.allocObj(re, et)
 	newCap := vc.declare(f.pfx+"appcap", SInt)
-	vc.assume(True, And(Ge(newCap, newLen), Le(newCap, BigLit(pow2Big(62)))))
+	// allocation succeeds (DESIGN §7.4): the grown slice respects the platform bound of 2^40 elements
+	vc.assume(g, And(Ge(newCap, newLen), Le(newCap, BigLit(pow2Big(40)))))
 	vc.bulkCopy(re, et, nobj, IntLit(0), SObj(s), SOff(s), Mul(SLen(s), IntLit(c)))
 	if fromStr {
-		h := vc.heap(re, "I")
+		h := vc.heap(re, vc.byteKind())
 		fr := vc.declare("hv", ArraySort(SInt, SInt))
 		lo := Mul(SLen(s), IntLit(c))
 		vc.frameAxiom(fr, Select(h, nobj), lo, Add(lo, n))
-		vc.setHeap(re, "I", Store(h, nobj, fr))
+		vc.setHeap(re, vc.byteKind(), Store(h, nobj, fr))
 	} else {
 		vc.bulkCopy(re, et, nobj, Mul(SLen(s), IntLit(c)), tobj, toff, Mul(n, IntLit(c)))
 	}
